@@ -414,6 +414,10 @@ STD_PREFIX_CASES = {
     "directory-named-stdx": ("stdx/lists.ucg", "stdx/lists.ucg"),
     "file-in-std-directory-not-embedded": ("std/mine.ucg", "std/mine.ucg"),
     "file-in-std-sub-directory-not-embedded": ("std/more/mine.ucg", "std/more/mine.ucg"),
+    # a project file that carries an embedded library's name, spelled so that it is not `std/<name>`: it is the project's file
+    "embedded-name-through-dot-slash": ("./std/lists.ucg", "std/lists.ucg"),
+    "embedded-name-through-parent-directory": ("../p/std/strings.ucg", "std/strings.ucg"),
+    "embedded-name-through-sub-directory": ("std/more/../lists.ucg", "std/lists.ucg"),
 }
 
 
